@@ -381,3 +381,44 @@ def selector_kind(ctx, b):
     if len(kinds) == 1:
         return kinds.pop()
     return "mixed" if kinds else "unknown"
+
+
+def last_occurrence_rules(ctx, rule):
+    """R16.d: the transposition anchors are *last* occurrences: the map entry of the outer character is overwritten with i1+1
+    after the inner loop of every outer iteration, and l2 is set to i2+1 exactly when the two characters are equal"""
+    dist, info = G.cost_constants(ctx)
+    if dist is None:
+        return
+    sy = ctx.sym(dist)
+    cfg = ctx.cfg(dist)
+    from .. import bounds as B
+    maps = {}
+    for bi, t in dist.calls():
+        if U.callee_is(t, "RefCell::borrow_mut") and "HashMap" in ((t.get("callee_args") or [""])[0]):
+            maps[B.norm_atom(sy.call_expr(t, bi))] = bi
+    if not ctx.floor(rule, "last_occurrence_maps", len(maps), 1, dist.where()):
+        return
+    for mkey in maps:
+        writes = []
+        for (bi, t, rk, m) in U.receiver_events(ctx, dist):
+            if B.norm_atom(rk) == mkey and m not in ("get", "clear", "deref", "deref_mut", "contains_key", "len", "borrow", "borrow_mut"):
+                writes.append((bi, t, m))
+        key = "map-overwrite"
+        ok = len(writes) == 1 and writes[0][2] == "insert"
+        if ok:
+            bi, t, m = writes[0]
+            k = S.strip_refs(sy.operand(t["args"][1]))
+            v = B.lin(sy.operand(t["args"][2]))
+            gets = [x for (x, tt, rk, mm) in U.receiver_events(ctx, dist) if B.norm_atom(rk) == mkey and mm == "get"]
+            hdr = cfg.loop_header(bi)
+            inner = [cfg.inner_header(g) for g in gets]
+            ok = len(v.co) == 1 and v.c == 1 and hdr is not None and all(not cfg.path_exists(bi, g, avoid=[hdr]) for g in gets) \
+                and cfg.inner_header(bi) == hdr and all(h is not None and h != hdr for h in inner)
+        if ok:
+            ctx.ok(rule, key, where(dist, writes[0][0], writes[0][1]), "after the inner loop of each outer iteration the map entry of the current "
+                   "character is overwritten with i1 + 1 (last occurrence)", nontrivial=True)
+        else:
+            ctx.fail(rule, key, where(dist, writes[0][0], writes[0][1]) if writes else dist.where(),
+                     "the last-occurrence map is not updated by an unconditional `insert(ch1, i1 + 1)` once per outer iteration (found: %s)"
+                     % [m for _, _, m in writes],
+                     {"witness": "distance('daat','data') = 1.0 but distance('data','daat') = 0.5: symmetry is lost"})
